@@ -376,7 +376,11 @@ class SqlalchemyRender:
         if t.arg is not None:
             value = self.to_expression(t.arg)
 
-        return sa.case(*conditions, else_=default, value=value)
+        col = sa.case(*conditions, else_=default, value=value)
+        # sqlalchemy takes the type of a branch: a Boolean-typed CASE used as a truth value is compiled to
+        # `CASE … END = 1` for dialects without native booleans, which is false for truthy values other than 1
+        col.type = sa.types.NullType()
+        return col
 
     def to_function(self, t):
         try:
